@@ -139,6 +139,21 @@ fn bits(words: &[u64]) -> BTreeSet<usize> {
     s
 }
 
+/// Logs the return of an operation when it goes out of scope (also on unwinding).
+struct ReturnEvent<'a> {
+    calls: &'a Mutex<Vec<(usize, usize, bool)>>,
+    tid: usize,
+    i: usize,
+}
+
+impl Drop for ReturnEvent<'_> {
+    fn drop(&mut self) {
+        if let Ok(mut g) = self.calls.lock() {
+            g.push((self.tid, self.i, true));
+        }
+    }
+}
+
 struct ExecOutcome {
     violation: Option<(String, String)>, // (key suffix, detail)
     outcome: String,
@@ -161,14 +176,20 @@ fn execute(h: &Harness, ex: &mut Explorer) -> ExecOutcome {
     };
     let subject = Arc::new(subject);
     let outs: Arc<Mutex<Vec<(usize, usize, Out)>>> = Arc::new(Mutex::new(Vec::new()));
+    // call / return events in execution order (one thread runs at a time under the scheduler,
+    // and this lock is not a scheduling point): (thread, op index, is_return)
+    let calls: Arc<Mutex<Vec<(usize, usize, bool)>>> = Arc::new(Mutex::new(Vec::new()));
     let mut bodies: Vec<ThreadBody> = Vec::new();
     for (tid, ops) in h.threads.iter().enumerate() {
         let ops = ops.clone();
         let subject = subject.clone();
         let outs = outs.clone();
+        let calls = calls.clone();
         bodies.push(Box::new(move || {
             let bm = subject.bm();
             for (i, op) in ops.iter().enumerate() {
+                calls.lock().unwrap().push((tid, i, false));
+                let _ret = ReturnEvent { calls: &calls, tid, i };
                 match op {
                     Op::SetBit(p) => bm.set_bit(*p),
                     Op::ResetBit(p) => bm.reset_bit(*p),
@@ -356,6 +377,58 @@ fn execute(h: &Harness, ex: &mut Explorer) -> ExecOutcome {
             ));
         }
     }
+    // real-time order: a mark takes effect between its call and its return and stays until a
+    // clearing operation that takes effect later. So for every mark call M of page p: p is set at
+    // the end, or a fetch-and-clear that returned after M was called reported p, or a reset
+    // covering p returned after M was called. (A harvest that returned before the mark was even
+    // called cannot account for it.)
+    {
+        let calls = calls.lock().unwrap();
+        let pos = |t: usize, i: usize, ret: bool| calls.iter().position(|e| *e == (t, i, ret));
+        let mut harvest_sets: BTreeMap<(usize, usize), BTreeSet<usize>> = BTreeMap::new();
+        for (t, i, o) in outs.iter() {
+            if let Out::Harvest(w) = o {
+                harvest_sets.insert((*t, *i), bits(w));
+            }
+        }
+        for (t, ops) in h.threads.iter().enumerate() {
+            for (i, op) in ops.iter().enumerate() {
+                let begin = match pos(t, i, false) {
+                    Some(b) => b,
+                    None => continue,
+                };
+                for p in op.marks() {
+                    if p >= h.pages || final_set.contains(&p) {
+                        continue;
+                    }
+                    let mut accounted = false;
+                    for (t2, ops2) in h.threads.iter().enumerate() {
+                        for (i2, op2) in ops2.iter().enumerate() {
+                            let end2 = pos(t2, i2, true).unwrap_or(usize::MAX);
+                            if end2 < begin {
+                                continue;
+                            }
+                            if op2.resets().contains(&p) {
+                                accounted = true;
+                            }
+                            if *op2 == Op::Harvest && harvest_sets.get(&(t2, i2)).map_or(false, |s| s.contains(&p)) {
+                                accounted = true;
+                            }
+                        }
+                    }
+                    if !accounted && oc.violation.is_none() {
+                        oc.violation = Some((
+                            "mark-after-harvest-lost".into(),
+                            format!(
+                                "thread {} op {} ({:?}) marked page {} after every fetch-and-clear that reported it had already returned, no reset of it was pending, and it is not set at the end",
+                                t, i, op, p
+                            ),
+                        ));
+                    }
+                }
+            }
+        }
+    }
     oc.outcome = outcome.join(";");
     oc
 }
@@ -393,6 +466,14 @@ fn harnesses(tier: Tier) -> Vec<Harness> {
     v.push(h("reset-range-vs-mark-vs-harvest", vec![vec![ResetRange(62, 3)], vec![SetBit(63), SetBit(66)], vec![Harvest]], None));
     v.push(h("nested-slice-mark-vs-reset-bit", vec![vec![SliceMark(32, 31, 3)], vec![ResetBit(64), SetBit(64)]], None));
     v.push(h("clone-vs-reset-vs-mark", vec![vec![Clone], vec![ResetBit(5)], vec![SetBit(5), SetBit(6)]], None));
+    // the same page marked again after a fetch-and-clear (histories on one page)
+    v.push(h("remark-vs-harvest", vec![vec![SetRange(70, 1), SetRange(70, 1)], vec![Harvest]], None));
+    v.push(h("remark-set-bit-vs-harvest", vec![vec![SetBit(70), SetBit(70)], vec![Harvest]], None));
+    v.push(h("remark-via-slice-vs-harvest", vec![vec![SliceMark(64, 6, 1), SliceMark(64, 6, 1)], vec![Harvest]], None));
+    v.push(h("harvest-then-mark-vs-marker", vec![vec![Harvest, SetRange(70, 1)], vec![SetRange(70, 1)]], None));
+    v.push(h("remark-vs-reset-bit", vec![vec![SetRange(70, 1), SetRange(70, 1)], vec![ResetBit(70)]], None));
+    v.push(h("guest-rewrite-vs-harvest", vec![vec![RegionWrite(70, 1), RegionWrite(70, 1)], vec![Harvest]], None));
+    v.push(h("remark-vs-harvest-twice", vec![vec![SetRange(70, 1), SetRange(70, 1), SetRange(70, 1)], vec![Harvest, Harvest]], Some(4)));
     if tier.thorough() {
         v.push(h(
             "3x2-ops-mark-harvest",
@@ -529,7 +610,7 @@ fn ctx_harness_infos() -> &'static Mutex<Vec<Value>> {
 
 pub fn run(tier: Tier, replay: Option<String>) -> i32 {
     let ctx = crate::new_ctx("C08", tier, "model_checking", &replay);
-    ctx.set_rule("stateless DFS over all interleavings of the hooked atomic operations of 2..3 real threads on one AtomicBitmap (130 pages, page size 1: pages 63/64 straddle two words); a state is a node of the choice tree (schedule prefix), every schedule is an execution of the real code; oracle: per page, reports by fetch-and-clear (incl. a final one) are >=1 if marked and never reset and <= number of marks; nothing unmarked or beyond the page count is ever reported; clone words are past values of the original");
+    ctx.set_rule("stateless DFS over all interleavings of the hooked atomic operations of 2..3 real threads on one AtomicBitmap (130 pages, page size 1: pages 63/64 straddle two words); a state is a node of the choice tree (schedule prefix), every schedule is an execution of the real code; oracle: per page, reports by fetch-and-clear (incl. a final one) are >=1 if marked and never reset and <= number of marks; nothing unmarked or beyond the page count is ever reported; real-time order from the recorded call/return events: for every mark call of a page, the page is set at the end, or was reported by a fetch-and-clear that returned after the mark was called, or a reset of it returned after the mark was called (harnesses that mark the same page again after a harvest); clone words are past values of the original");
     ctx.assume("sequentially consistent interleavings of whole atomic operations (per-word RMW atomicity is all the property needs)");
     ctx.assume("interception is by type: every operation on the bitmap's AtomicU64 words is a scheduling point (hook H2)");
     if let Some(r) = ctx.replay_of.clone() {
